@@ -203,14 +203,25 @@ def sub_at(case, t):
     return sub
 
 
-def doc_fj(case, pos, T=None):
+def coeffs_at(case, t):
+    """coefficients of the components (configuration order) in force at step t (modifycvcs may change them)"""
+    cf = [c["coeff"] for c in case["comps"]]
+    for s in case["steps"][:t + 1]:
+        if "coeffs" in s:
+            cf = list(s["coeffs"])
+    return cf
+
+
+def doc_fj(case, pos, T=None, coeffs=None):
     """the documented Jacobian force: kT * sum_i c_i jd_i / sum_i c_i^2"""
     T = case["T"] if T is None else T
     if T == 0.0:
         return 0.0
+    cf = coeffs if coeffs is not None else [c["coeff"] for c in case["comps"]]
+    sq = sum(k * k for k in cf)
     s = 0.0
-    for c in case["comps"]:
-        s += geom(case, c, pos)[1] * c["coeff"] / sqnorm(case)
+    for c, k in zip(case["comps"], cf):
+        s += geom(case, c, pos)[1] * k / sq
     return s * (BOLTZ * T)
 
 
@@ -367,6 +378,10 @@ def scenario(case, k):
                   "    group2 {", "      atomNumbers 1", "    }", "  }", "}", "EOF"]
         if "T" in s:
             L.append("temperature %r" % s["T"])          # the engine changes its target temperature between two steps
+        if "coeffs" in s:
+            # `cv colvar v modifycvcs`: new coefficients; the configuration strings go in the implementation's component order
+            order = sorted(range(len(case["comps"])), key=lambda i: case["comps"][i]["kind"])
+            L.append("modcvc v " + " | ".join("componentCoeff %r" % s["coeffs"][i] for i in order))
         if "subset" in s:
             L.append("script cv colvar v set subtract_applied_force_from_total_force %d" % (1 if s["subset"] else 0))
         for i, p in enumerate(s["pos"]):
@@ -526,7 +541,7 @@ def model_line(case, isteps):
         fb1 = bias_force(case, isteps[t]["cv"].get("v", float("nan"))) if (case["bias"]["type"] != "none" and not s.get("off")) else 0.0
         p.append(hx(fb1 + (-case["bias2"] if case.get("bias2") is not None else 0.0)))
         p.append("1" if applies(case, t) else "0")
-        p += [hx(BOLTZ * T_at(case, t)), "1" if case["hide"] else "0", "1" if sub_at(case, t) else "0"]
+        p += [hx(BOLTZ * T_at(case, t)), "1" if case["hide"] else "0", "1" if sub_at(case, t) else "0"] + [hx(k) for k in coeffs_at(case, t)]
         for ci in rot_indices(case):
             p.append(rot_txt(isteps[t].get("rot", {}).get(ci, [1.0, 0.0, 0.0, 0.0, 0.0, 0]), True))
     return " ".join(p)
@@ -759,6 +774,7 @@ def gen_case(r, idx, typ=None, kinds=None):
         temps = r.choice([[300.0, None, 0.0, None, 512.0, None, 0.0], [0.0, None, None, 300.0, None, 0.0, None], [512.0, 0.0, 300.0, 0.0, 512.0, None, None]])
         case["T"] = temps[0]
         k_sub = r.randint(2, 5) if (not case["same"] and r.random() < 0.6) else None
+        k_cf = r.randint(2, 5) if (not case["same"] and not periodic(case) and r.random() < 0.4) else None     # modifycvcs mid-run
         steps = []
         for i in range(7):
             st = {"pos": P[i % 4], "ef": (zero if not case["same"] else field())}
@@ -766,6 +782,8 @@ def gen_case(r, idx, typ=None, kinds=None):
                 st["T"] = temps[i]
             if k_sub is not None and i == k_sub:
                 st["subset"] = not case["sub"]
+            if k_cf is not None and i == k_cf:
+                st["coeffs"] = [kk * r.choice([2.0, 0.5, -1.0, 3.0]) if j == 0 else kk for j, kk in enumerate(c_["coeff"] for c_ in comps)]
             steps.append(st)
         if case["same"]:
             # same-step: every second step hands the forces applied at the previous one back
@@ -935,12 +953,12 @@ def oracle(case, isteps):
             s0 = delivered_is_own(case, t)
             if s0 is None:
                 continue
-            fj = doc_fj(case, case["steps"][s0]["pos"], T_at(case, s0))      # Jacobian term of the step reported, at its temperature
+            fj = doc_fj(case, case["steps"][s0]["pos"], T_at(case, s0), coeffs_at(case, s0))      # Jacobian term of the step reported, at its temperature
             f = afs[s0]
             sub_t = sub_at(case, t)
             if case["same"]:
                 # same step: the Jacobian term is that of the step of the report (same geometry), at its temperature
-                fj = doc_fj(case, case["steps"][t]["pos"], T_at(case, t))
+                fj = doc_fj(case, case["steps"][t]["pos"], T_at(case, t), coeffs_at(case, t))
                 exp = f + (0.0 if case["hide"] else fj)
             else:
                 comp = case["hide"] and applies(case, s0)
@@ -949,6 +967,12 @@ def oracle(case, isteps):
                 tag = "hidden" if case["hide"] else ("T0" if T_at(case, s0) == 0 else "jacobian")
                 if typ_par(case):
                     tag += ":parameter-change"
+                if coeffs_at(case, t) != coeffs_at(case, s0):
+                    out.append(("inverse:lagged:coefficients-changed-by-modifycvcs",
+                                "step %d: the component coefficients were changed by modifycvcs from %r to %r after step %d; the atoms experienced exactly "
+                                "the forces applied for the variable force %r, reported total force %r, expected %r (the forces of step %d are projected "
+                                "with the coefficients of step %d)" % (t, coeffs_at(case, s0), coeffs_at(case, t), s0, f, tfs[t], exp, s0, t)))
+                    continue
                 out.append(("inverse:%s:%s:%s%s" % (kd, mode, tag, ":subtract" if sub_t else ""),
                             "step %d: the atoms experienced exactly the forces applied for the variable force %r; reported total force %r, "
                             "expected %r (applied force %s documented Jacobian term %r%s)" % (
